@@ -2,14 +2,19 @@
 //! script = [time_based, wsize, wdur, minc, fnum, fden, slow_on, slow_thr, snum, sden, wait_open,
 //!           permitted, has_fallback, n, (op a b)*]
 //! op 1 Poll a | 2 Drop a | 3 Advance a ms | 4 Complete a b | 5 ForceOpen | 6 ForceClosed | 7 Reset
-//! | 8 Call a (create the call future without polling it). Events naming a caller outside 0..n-1
-//! are skipped (no trace entry).
+//! | 8 Call a (create the call future without polling it) | 15 / 16 / 17 force_open / force_closed / reset
+//! called on the service's OWN handle (`base`: the fallback service when a fallback is configured) instead of
+//! the plain clone `ctl`; 25 / 26 = HealthTriggerable::trigger_unhealthy / trigger_healthy on `base` (cargo
+//! feature `health-integration`: they spawn a task that does force_open / force_closed; it runs during the
+//! settle that follows every event). Events naming a caller outside 0..n-1 are skipped (no trace entry).
 //! outcome b: 0 ok | 1 ok classified as failure | 2 err | 3 err classified as success
 //!            | 5 ok on which the failure classifier panics | anything else: the inner call panics
 //! min_calls < 0 = minimum_number_of_calls is not set (builder default: the window size)
-//! first field = time_based + 2*unit_us: with unit_us = 1 wait_open, window duration, slow threshold and
-//! Advance are in microseconds (the clock then jumps by the whole amount in one step: the breaker reads
-//! std::time::Instant only, no timer is involved)
+//! first field = time_based + 2*unit_us + 4*unit_ns: with unit_us (unit_ns) = 1 wait_open, window duration,
+//! slow threshold and Advance are in microseconds (nanoseconds); the clock then jumps by the whole amount in
+//! one step: the breaker reads std::time::Instant only, no timer is involved
+//! sync field = code(ctl.state_sync()) + 10 if ctl.is_open() disagrees with it + 20 if the service handle's
+//! lock-free view differs from ctl's, in which case + 100 * code(base.state_sync()) as well
 //! trace per event = [r, started (number of inner calls started by this event), state, state_sync,
 //!                    metrics.state, total, failures, successes, slow, in-flight, wake mask]
 //! Handles: callers are clones of `base` (the service, with its fallback when configured); the
@@ -36,7 +41,7 @@ fn code(s: CircuitState) -> i128 {
 
 macro_rules! drive {
     ($svc:expr, $ctl:expr, $s:expr, $n:expr, $sh:expr) => {{
-        let unit_us = (zn($s, 0).max(0) >> 1) & 1 != 0;
+        let sub_ns: u64 = match (zn($s, 0).max(0) >> 1) & 3 { 0 => 0, 1 => 1000, _ => 1 };
         let base = $svc;
         let ctl = $ctl;
         let s: &[i128] = $s;
@@ -86,10 +91,10 @@ macro_rules! drive {
                     }
                 }
                 3 => {
-                    if unit_us {
-                        let us = a.clamp(0, 1_000_000_000_000) as u64;
-                        VIRT_NS.fetch_add(us * 1000, std::sync::atomic::Ordering::SeqCst);
-                        tokio::time::advance(Duration::from_micros(us)).await;
+                    if sub_ns != 0 {
+                        let ns = a.clamp(0, 1_000_000_000_000) as u64 * sub_ns;
+                        VIRT_NS.fetch_add(ns, std::sync::atomic::Ordering::SeqCst);
+                        tokio::time::advance(Duration::from_nanos(ns)).await;
                     } else {
                         advance_ms(a.max(0) as u64).await
                     }
@@ -101,19 +106,26 @@ macro_rules! drive {
                 5 => ctl.force_open().await,
                 6 => ctl.force_closed().await,
                 7 => ctl.reset().await,
+                15 => base.force_open().await,
+                16 => base.force_closed().await,
+                17 => base.reset().await,
+                25 => tower_resilience_core::HealthTriggerable::trigger_unhealthy(&base),
+                26 => tower_resilience_core::HealthTriggerable::trigger_healthy(&base),
                 _ => continue,
             }
             settle().await;
             // every inner call started by this event (also by spawned work during settle)
             let started = sh.take_starts().len() as i128;
             let mut mask: i128 = 0;
-            for (j, c) in callers.iter().enumerate() {
+            for (j, c) in callers.iter().enumerate().take(120) { // the mask must fit an i128
                 if let Some(m) = c { if m.alive() && m.woken() { mask += 1i128 << j; } }
             }
             let st = code(base.state().await);
             let mut sync = code(ctl.state_sync());
             if ctl.is_open() != (ctl.state_sync() == CircuitState::Open) { sync += 10; }
-            if base.state_sync() != ctl.state_sync() || base.is_open() != ctl.is_open() { sync += 20; }
+            if base.state_sync() != ctl.state_sync() || base.is_open() != ctl.is_open() {
+                sync += 20 + 100 * code(base.state_sync());
+            }
             let m = base.metrics().await;
             tr.extend([r, started, st, sync, code(m.state), m.total_calls as i128, m.failure_count as i128,
                        m.success_count as i128, m.slow_call_count as i128, sh.inflight() as i128, mask]);
@@ -126,9 +138,13 @@ fn run(s: &[i128]) -> Vec<i128> {
     let n = zn(s, 13) as usize;
     let rt = paused_rt();
     let sv: Vec<i128> = s.to_vec();
-    let unit_us = (zn(s, 0).max(0) >> 1) & 1 != 0;
+    let unit_sel = (zn(s, 0).max(0) >> 1) & 3;
     let unit = move |v: i128| -> Duration {
-        if unit_us { Duration::from_micros(v.max(0) as u64) } else { Duration::from_millis(v.max(0) as u64) }
+        match unit_sel {
+            0 => Duration::from_millis(v.max(0) as u64),
+            1 => Duration::from_micros(v.max(0) as u64),
+            _ => Duration::from_nanos(v.max(0) as u64),
+        }
     };
     rt.block_on(async move {
         let s = &sv[..];
